@@ -853,6 +853,13 @@ pub fn route_path_to_segments(path: &str) -> Vec<&str> {
             panic!("path segments may not be empty: '{}'", path);
         }
     }
+    for segment in &ret {
+        // Request paths containing dot-segments are always refused, so a
+        // route with a literal "." or ".." segment could never be reached.
+        if *segment == "." || *segment == ".." {
+            panic!("path segments may not be \".\" or \"..\": '{}'", path);
+        }
+    }
 
     // TODO pop off the last element if it's empty; today we treat a trailing
     // "/" as identical to a path without a trailing "/", but we may want to
